@@ -9,8 +9,14 @@ def _pay(rng, k):
 
 
 class Scenario:
-    def __init__(self, rng, role='server', lenreq=False, hostile=0.0, with_close=True, steps=12):
+    def __init__(self, rng, role='server', lenreq=False, hostile=0.0, with_close=True, steps=12, frag=0.0,
+                 close_mode=None, garbage=0.0):
         self.rng = rng
+        self.frag = frag                # probability that a legal peer frame with a payload arrives fragmented
+        self.close_mode = close_mode    # None (random eof/error) | 'eof' | 'error' | 'close' | 'cut'
+        self.garbage = garbage          # probability that a hostile step is raw bytes rather than a well-formed frame
+        self.raw_injected = 0
+        self.fragmented = 0
         self.rec = Recorder(role, lenreq)
         self.first = 2 if role == 'server' else 1
         self.peer_next = 1 if role == 'server' else 2       # next stream id the peer opens
@@ -27,9 +33,30 @@ class Scenario:
     # ---- helpers
     def _inject(self, fr, outcome=('none',)):
         self.rec.next_outcome = outcome
-        self.rec.t.inject_frame(FR.build(fr).serialize())
-        self.rec.settle()
+        if self.frag and fr['t'] in ('RequestResponse', 'RequestStream', 'RequestChannel', 'RequestFnf', 'Payload') \
+                and not fr.get('follows') and (fr.get('d') or fr.get('md')) and self.rng.random() < self.frag:
+            fr = dict(fr)
+            fr['d'] = fr['d'] + b'.' * self.rng.choice([70, 130, 200])
+            for b in self._fragments(fr):
+                self.rec.t.inject_frame(b)
+                self.rec.settle()
+            self.fragmented += 1
+        else:
+            self.rec.t.inject_frame(FR.build(fr).serialize())
+            self.rec.settle()
         self.rec.next_outcome = ('none',)
+
+    def _fragments(self, fr):
+        """the library's own fragmenter (validated against model/Fragmenter.v by C03) produces what a peer would send"""
+        o = FR.build(fr)
+        o.fragment_size_bytes = 64
+        out = []
+        for _ in range(1000):
+            g = o.get_next_fragment(self.rec.t.lenreq)
+            if g is None:
+                break
+            out.append(g.serialize())
+        return out
 
     def _oid_next(self):
         return len(self.rec.objs)
@@ -337,6 +364,17 @@ class Scenario:
         self.legal = False
         rng = self.rng
         self.k += 1
+        if rng.random() < self.garbage:
+            n = rng.choice([0, 0, 1, 2, 3, 5, 6, 9, 12, 20, 40])
+            raw = bytes(rng.randrange(256) for _ in range(n))
+            if rng.random() < 0.3 and n >= 6:
+                raw = (rng.choice([0, 1, 2, 999])).to_bytes(4, 'big') + bytes([rng.randrange(256), rng.randrange(256)]) + raw[6:]
+            self.rec.next_outcome = rng.choice([('raise',), ('none',)])
+            self.rec.t.inject_frame(raw)
+            self.rec.settle()
+            self.rec.next_outcome = ('none',)
+            self.raw_injected += 1
+            return
         sids = [s for s in list(self.theirs) + [m['sid'] for m in self.mine.values()]] or [5]
         sid = rng.choice(sids + [0, 0, 999, self.peer_next + 10])
         x = rng.random()
@@ -401,12 +439,33 @@ class Scenario:
                 else:
                     self.peer_open()
             if self.with_close:
-                if rng.random() < 0.5:
+                mode = self.close_mode or rng.choice(['eof', 'error'])
+                self.pre_close_sent = len(self.rec.t.sent)
+                if mode == 'cut':
+                    # the link dies in the middle of a (possibly fragmented) frame
+                    fr = {'t': 'Payload', 'sid': rng.choice([m['sid'] for m in self.mine.values()] or [self.peer_next]),
+                          'ign': False, 'follows': False, 'complete': False, 'next': True, 'md': b'', 'd': b'x' * 150}
+                    frs = self._fragments(fr)
+                    keep = rng.randrange(0, len(frs))
+                    for b in frs[:keep]:
+                        self.rec.t.inject_frame(b)
+                        self.rec.settle()
+                    if self.rec.t.lenreq:
+                        b = frs[keep]
+                        framed = len(b).to_bytes(3, 'big') + b
+                        self.rec.t.inject(framed[:rng.randrange(0, len(framed))])
+                        self.rec.settle()
+                    rng.choice([self.rec.t.inject_eof, self.rec.t.inject_error])()
+                elif mode == 'close':
+                    import asyncio
+                    self.rec.act(lambda: asyncio.ensure_future(self.rec.ep.close()))
+                elif mode == 'eof':
                     self.rec.t.inject_eof()
                 else:
                     self.rec.t.inject_error()
                 self.rec.settle()
                 self.closed = True
+                self.close_used = mode
             self.rec.settle()
         finally:
             self.rec.finish()
